@@ -103,7 +103,7 @@ pub fn run(ctx: &Ctx, rep: &mut Report) {
     return;
   }
   let mut rng = ctx.rng("c03");
-  let per_file = if ctx.thorough { 700 } else { 40 };
+  let per_file = if ctx.thorough { 700 } else { 100 };
   let cand_cap = if ctx.thorough { 400 } else { 120 };
   let n_mut = if ctx.thorough { 4 } else { 1 };
   let all = corpus::load_all();
